@@ -576,8 +576,8 @@ theorem verify_buf (k : Kind) (c : Cfg) (hv : verify k c = true) : bufVerify c =
   · exact hv.1.1.1
   · exact hv.1.1.1
   · exact hv.1.1
+  · exact hv.1.1.1.1
   · exact hv.1.1.1
-  · exact hv.1.1
 
 theorem verify_static (k : Kind) (c : Cfg) (hv : verify k c = true) :
     1 ≤ mmOf k c ∧ 1 ≤ c.bufCfg.blockSize := by
